@@ -207,10 +207,11 @@ const FORWARD_SUBST: SolveIds = SolveIds { no_panic: "C11.forward_substitution.n
 const BACKWARD_SUBST: SolveIds = SolveIds { no_panic: "C11.backward_substitution.no_panic", residual: "C11.backward_substitution.residual", note: "worst_ratio.backward_substitution.backward_error_over_n_eps" };
 
 /// one residual assertion shared by all triangular / factor solves; records headroom
-fn check_solve(rep: &mut Report, ids: &SolveIds, regime: &str, how: &str, form: &str, a: &[f64], n: usize, x: &Result<Vec<f64>, String>, b: &[f64]) {
+fn check_solve(rep: &mut Report, ids: &SolveIds, regime: &str, how: &str, form: &str, a: &[f64], n: usize, x: &Result<Vec<f64>, String>, b: &[f64]) -> bool {
     match x {
         Err(e) => {
             rep.check(ids.no_panic, regime, false, || detail(regime, how, n, a, json!({"form": form, "b": jf(b), "panic": e})));
+            false
         }
         Ok(x) => {
             let be = backward_error(a, n, x, b);
@@ -221,7 +222,7 @@ fn check_solve(rep: &mut Report, ids: &SolveIds, regime: &str, how: &str, form: 
             }
             rep.check(ids.residual, regime, ok, || {
                 detail(regime, how, n, a, json!({"form": form, "b": jf(b), "x": jf(x), "len": x.len(), "backward_error": jnum(be), "bound": tol}))
-            });
+            })
         }
     }
 }
@@ -619,7 +620,9 @@ fn chol_check_in(rep: &mut Report, rng: &mut Rng, regime: &'static str, n: usize
                         check_solve(rep, &CHOLESKY_SOLVE, regime, &how, "Matrix/Matrix col 1", &a, n, &Ok(col(&x.data, n, 2, 1)), &b2);
                     }
                 }
-                Err(e) => check_solve(rep, &CHOLESKY_SOLVE, regime, &how, "Matrix/Matrix", &a, n, &Err(e), &b),
+                Err(e) => {
+                    check_solve(rep, &CHOLESKY_SOLVE, regime, &how, "Matrix/Matrix", &a, n, &Err(e), &b);
+                }
             }
         }
     }
@@ -955,7 +958,9 @@ fn lu_case(rep: &mut Report, rng: &mut Rng, inp: &LuInput) {
                     check_solve(rep, &LU_SOLVE, regime, how, "Matrix/Matrix col 1", a, n, &Ok(col(&x.data, n, 2, 1)), &b);
                 }
             }
-            Err(e) => check_solve(rep, &LU_SOLVE, regime, how, "Matrix/Matrix", a, n, &Err(e), &b),
+            Err(e) => {
+                check_solve(rep, &LU_SOLVE, regime, how, "Matrix/Matrix", a, n, &Err(e), &b);
+            }
         }
     }
     rep.sample(|| json!({"class": regime, "how": how, "n": n, "pivots": pivm, "longest_pivot_cycle": longest}));
@@ -1001,6 +1006,340 @@ fn subst_case(rep: &mut Report, rng: &mut Rng, n: usize) {
 }
 
 // ------------------------------------------------------------------------------------------------
+// structured right-hand sides (stream 9)
+//
+// "Triangular solves invert triangular systems" and the factor solves built on them are statements
+// about every right-hand side, not only about dense ones: columns of the identity (an inverse is
+// computed by solving against them), load vectors that start or end with zeros or have a zero block in
+// the middle, a single non-zero entry, sparse signed vectors and the zero vector go through every
+// triangular solve (slice and Matrix form, forward and backward), through `cholesky_solve` (slice,
+// Matrix/Vector, Matrix/Matrix), the routed `solve` on SPD input and `lu_solve` (slice, Matrix/Vector,
+// Matrix/Matrix). The regime is the structure of the right-hand side. Oracle: the same double-double
+// residual / backward-error bound C·n·ε as for dense right-hand sides (a zero right-hand side has the
+// zero solution: any other finite answer has a backward error of at least 1/κ); the slice-level and
+// the Matrix-level answer to the same system have to agree within the κ-scaled forward bound.
+
+const RS_UNIT: &str = "rhs-structure:unit-vector";
+const RS_IDENTITY: &str = "rhs-structure:identity-multi-rhs";
+const RS_LEADING: &str = "rhs-structure:leading-zeros";
+const RS_TRAILING: &str = "rhs-structure:trailing-zeros";
+const RS_MIDDLE: &str = "rhs-structure:zeros-in-the-middle";
+const RS_SINGLE: &str = "rhs-structure:single-nonzero";
+const RS_SPARSE: &str = "rhs-structure:sparse-signed";
+const RS_ZERO: &str = "rhs-structure:all-zero";
+const RS_ALL: [&str; 8] = [RS_UNIT, RS_IDENTITY, RS_LEADING, RS_TRAILING, RS_MIDDLE, RS_SINGLE, RS_SPARSE, RS_ZERO];
+const RS_KINDS: [&str; 3] = ["rhs-structure:system=triangular", "rhs-structure:system=spd-cholesky", "rhs-structure:system=general-lu"];
+
+const FORWARD_AGREE: (&str, &str) = ("C11.forward_substitution.slice_vs_matrix", "worst_ratio.forward_substitution.slice_vs_matrix");
+const BACKWARD_AGREE: (&str, &str) = ("C11.backward_substitution.slice_vs_matrix", "worst_ratio.backward_substitution.slice_vs_matrix");
+const CHOLESKY_SOLVE_AGREE: (&str, &str) = ("C11.cholesky_solve.slice_vs_matrix", "worst_ratio.cholesky_solve.slice_vs_matrix");
+const CHOLESKY_SOLVE_MULTI_AGREE: (&str, &str) = ("C11.cholesky_solve.multi_vs_single", "worst_ratio.cholesky_solve.multi_vs_single");
+const LU_SOLVE_AGREE: (&str, &str) = ("C11.lu_solve.slice_vs_matrix", "worst_ratio.lu_solve.slice_vs_matrix");
+const LU_SOLVE_MULTI_AGREE: (&str, &str) = ("C11.lu_solve.multi_vs_single", "worst_ratio.lu_solve.multi_vs_single");
+
+fn rhs_entry(rng: &mut Rng) -> f64 {
+    (0.25 + rng.f64()) * if rng.chance(0.4) { -1.0 } else { 1.0 }
+}
+
+/// The structured right-hand sides of one system of order `n`: (regime, b). `few`: a sample of the unit
+/// vectors (first, last, one in between) instead of all of them.
+fn structured_rhs_list(rng: &mut Rng, n: usize, few: bool) -> Vec<(&'static str, Vec<f64>)> {
+    let mut out: Vec<(&'static str, Vec<f64>)> = Vec::new();
+    let mut units: Vec<usize> = if few { vec![0, n / 2, n - 1] } else { (0..n).collect() };
+    units.dedup();
+    for k in units {
+        let mut b = vec![0.0; n];
+        b[k] = 1.0;
+        out.push((RS_UNIT, b));
+    }
+    if n >= 2 {
+        let z = rng.usize(1, n - 1);
+        out.push((RS_LEADING, (0..n).map(|i| if i < z { 0.0 } else { rhs_entry(rng) }).collect()));
+        let z = rng.usize(1, n - 1);
+        out.push((RS_TRAILING, (0..n).map(|i| if i >= n - z { 0.0 } else { rhs_entry(rng) }).collect()));
+        let mut b: Vec<f64> = (0..n)
+            .map(|_| {
+                if rng.chance(0.25) {
+                    if rng.bool() {
+                        rhs_entry(rng)
+                    } else if rng.bool() {
+                        1.0
+                    } else {
+                        -1.0
+                    }
+                } else {
+                    0.0
+                }
+            })
+            .collect();
+        // at least one non-zero and one zero entry
+        let p = rng.usize(0, n - 1);
+        if b.iter().all(|v| *v == 0.0) {
+            b[p] = if rng.bool() { 1.0 } else { -1.0 };
+        }
+        if b.iter().all(|v| *v != 0.0) {
+            b[p] = 0.0;
+        }
+        out.push((RS_SPARSE, b));
+    }
+    if n >= 3 {
+        let p = rng.usize(1, n - 2);
+        let q = rng.usize(p, n - 2);
+        out.push((RS_MIDDLE, (0..n).map(|i| if i >= p && i <= q { 0.0 } else { rhs_entry(rng) }).collect()));
+    }
+    let mut b = vec![0.0; n];
+    b[rng.usize(0, n - 1)] = rhs_entry(rng) * 2f64.powi(rng.int(-8, 8) as i32);
+    out.push((RS_SINGLE, b));
+    out.push((RS_ZERO, vec![0.0; n]));
+    out
+}
+
+/// two answers to the same system, each within the backward-error bound, differ by at most
+/// 4·C·n·ε·κ∞·max(‖x‖, ‖y‖) (first-order perturbation theory; compared only when κ∞ ≤ 1e10)
+fn check_agree(rep: &mut Report, ids: (&str, &str), regime: &str, how: &str, what: &str, a: &[f64], n: usize, kappa: f64, b: &[f64], x: &[f64], y: &[f64]) {
+    if !(kappa <= 1e10) || x.len() != n || y.len() != n {
+        return;
+    }
+    let d = x.iter().zip(y).fold(0.0f64, |w, (p, q)| {
+        let d = (p - q).abs();
+        if d.is_nan() {
+            f64::INFINITY
+        } else {
+            w.max(d)
+        }
+    });
+    let bound = 4.0 * C * n as f64 * EPS * kappa * max_abs(x).max(max_abs(y));
+    let ok = d <= bound;
+    if ok && bound > 0.0 {
+        rep.note_max(ids.1, d / bound);
+    }
+    rep.check(ids.0, regime, ok, || detail(regime, how, n, a, json!({"compared": what, "b": jf(b), "x": jf(x), "y": jf(y), "difference": jnum(d), "bound": jnum(bound), "cond_inf": jnum(kappa)})));
+}
+
+/// n×k row-major matrix whose columns are the given vectors
+fn columns_to_matrix(cols: &[&Vec<f64>], n: usize) -> Matrix {
+    let k = cols.len();
+    let mut bb = vec![0.0; n * k];
+    for (j, c) in cols.iter().enumerate() {
+        for i in 0..n {
+            bb[i * k + j] = c[i];
+        }
+    }
+    Matrix::new(bb, n as i32, k as i32)
+}
+
+fn identity(n: usize) -> Vec<Vec<f64>> {
+    (0..n)
+        .map(|j| {
+            let mut e = vec![0.0; n];
+            e[j] = 1.0;
+            e
+        })
+        .collect()
+}
+
+/// A factor solve in its three forms (slice, Matrix/Vector, Matrix/Matrix) on every structured
+/// right-hand side, plus the identity as a multi-column right-hand side (the inverse).
+fn structured_factor_solves(
+    rep: &mut Report,
+    ids: &SolveIds,
+    agree: (&'static str, &'static str),
+    multi_agree: (&'static str, &'static str),
+    shape_id: &str,
+    how: &str,
+    a: &[f64],
+    n: usize,
+    kappa: f64,
+    list: &[(&'static str, Vec<f64>)],
+    slice_solve: &dyn Fn(&[f64]) -> Result<Vec<f64>, String>,
+    vector_solve: &dyn Fn(&Vector) -> Result<Vec<f64>, String>,
+    matrix_solve: &dyn Fn(&Matrix) -> Result<Matrix, String>,
+) {
+    let mut singles: Vec<Option<Vec<f64>>> = Vec::with_capacity(list.len());
+    for (regime, b) in list {
+        rep.seen(regime, 1);
+        let xs = slice_solve(b);
+        let ok_s = check_solve(rep, ids, regime, how, "slice", a, n, &xs, b);
+        let xm = vector_solve(&Vector::new(b.clone()));
+        let ok_m = check_solve(rep, ids, regime, how, "Matrix/Vector", a, n, &xm, b);
+        if ok_s && ok_m {
+            check_agree(rep, agree, regime, how, "slice vs Matrix/Vector", a, n, kappa, b, xs.as_ref().unwrap(), xm.as_ref().unwrap());
+        }
+        singles.push(if ok_m { xm.ok() } else { None });
+    }
+    // multi-column right-hand sides: the structured vectors side by side (at most 8 columns, one per
+    // structure first), and the identity
+    let mut pick: Vec<usize> = Vec::new();
+    for r in RS_ALL {
+        if let Some(i) = list.iter().rposition(|(reg, _)| *reg == r) {
+            pick.push(i);
+        }
+    }
+    let cols: Vec<&Vec<f64>> = pick.iter().map(|&i| &list[i].1).collect();
+    if !cols.is_empty() {
+        let k = cols.len();
+        let bm = columns_to_matrix(&cols, n);
+        match matrix_solve(&bm) {
+            Ok(x) => {
+                let shape_ok = x.nrows == n && x.ncols == k && x.data.len() == n * k;
+                rep.check(shape_id, "rhs-structure:multi-rhs", shape_ok, || detail("rhs-structure:multi-rhs", how, n, a, json!({"shape": [x.nrows, x.ncols], "expected": [n, k]})));
+                if shape_ok {
+                    for (j, &i) in pick.iter().enumerate() {
+                        let (regime, b) = (list[i].0, &list[i].1);
+                        let xj = col(&x.data, n, k, j);
+                        let ok = check_solve(rep, ids, regime, how, "Matrix/Matrix (structured columns)", a, n, &Ok(xj.clone()), b);
+                        if let (true, Some(xs)) = (ok, &singles[i]) {
+                            check_agree(rep, multi_agree, regime, how, "Matrix/Matrix column vs Matrix/Vector", a, n, kappa, b, &xj, xs);
+                        }
+                    }
+                }
+            }
+            Err(e) => {
+                check_solve(rep, ids, "rhs-structure:multi-rhs", how, "Matrix/Matrix (structured columns)", a, n, &Err(e), cols[0]);
+            }
+        }
+    }
+    let eye = identity(n);
+    rep.seen(RS_IDENTITY, 1);
+    match matrix_solve(&Matrix::eye(n)) {
+        Ok(x) => {
+            let shape_ok = x.nrows == n && x.ncols == n && x.data.len() == n * n;
+            rep.check(shape_id, RS_IDENTITY, shape_ok, || detail(RS_IDENTITY, how, n, a, json!({"shape": [x.nrows, x.ncols], "expected": [n, n]})));
+            if shape_ok {
+                for j in 0..n {
+                    let xj = col(&x.data, n, n, j);
+                    let ok = check_solve(rep, ids, RS_IDENTITY, how, "Matrix/Matrix (identity: inverse)", a, n, &Ok(xj.clone()), &eye[j]);
+                    // the unit vectors come first in `list`, in order, when all of them are present
+                    if ok && list.len() > n && list[j].0 == RS_UNIT && list[j].1[j] == 1.0 {
+                        if let Some(xs) = &singles[j] {
+                            check_agree(rep, multi_agree, RS_IDENTITY, how, "column of the inverse vs Matrix/Vector solve against e_j", a, n, kappa, &eye[j], &xj, xs);
+                        }
+                    }
+                }
+            }
+        }
+        Err(e) => {
+            check_solve(rep, ids, RS_IDENTITY, how, "Matrix/Matrix (identity: inverse)", a, n, &Err(e), &eye[0]);
+        }
+    }
+}
+
+fn structured_rhs_case(rep: &mut Report, rng: &mut Rng, kind: usize, n: usize, few: bool) {
+    rep.case(RS_KINDS[kind]);
+    match kind {
+        0 => {
+            // a lower and an upper triangular system, as in `subst_case`
+            let scale = 2f64.powi(rng.int(-8, 8) as i32);
+            let off = 1.0 / (n as f64).sqrt();
+            let mut l = vec![0.0; n * n];
+            let mut u = vec![0.0; n * n];
+            for i in 0..n {
+                for j in 0..n {
+                    let dg = scale * rng.range(1.0, 2.0) * if rng.bool() { 1.0 } else { -1.0 };
+                    let of = scale * off * rng.range(-1.0, 1.0);
+                    if i == j {
+                        l[i * n + j] = dg;
+                        u[i * n + j] = scale * rng.range(1.0, 2.0) * if rng.bool() { 1.0 } else { -1.0 };
+                    } else if j < i {
+                        l[i * n + j] = of;
+                    } else {
+                        u[i * n + j] = of;
+                    }
+                }
+            }
+            rep.distinct(Hasher::new().s(RS_KINDS[kind]).u(n as u64).u(bits_digest(&l)).u(bits_digest(&u)).finish(), n >= 2);
+            let how = format!("triangular, |diagonal| in [1,2]·2^k, off-diagonal uniform(-1,1)·2^k/sqrt(n), 2^k = {}", scale);
+            let (kl, ku) = (cond_inf(&l, n), cond_inf(&u, n));
+            let (lm, um) = (mat(&l, n), mat(&u, n));
+            let list = structured_rhs_list(rng, n, few);
+            for (regime, b) in &list {
+                rep.seen(regime, 1);
+                let xs = guard(|| forward_substitution(&l, b));
+                let ok_s = check_solve(rep, &FORWARD_SUBST, regime, &how, "slice", &l, n, &xs, b);
+                let xm = guard(|| lm.forward_substitution(b).to_vec());
+                let ok_m = check_solve(rep, &FORWARD_SUBST, regime, &how, "Matrix", &l, n, &xm, b);
+                if ok_s && ok_m {
+                    check_agree(rep, FORWARD_AGREE, regime, &how, "slice vs Matrix", &l, n, kl, b, xs.as_ref().unwrap(), xm.as_ref().unwrap());
+                }
+                let xs = guard(|| backward_substitution(&u, b));
+                let ok_s = check_solve(rep, &BACKWARD_SUBST, regime, &how, "slice", &u, n, &xs, b);
+                let xm = guard(|| um.backward_substitution(b).to_vec());
+                let ok_m = check_solve(rep, &BACKWARD_SUBST, regime, &how, "Matrix", &u, n, &xm, b);
+                if ok_s && ok_m {
+                    check_agree(rep, BACKWARD_AGREE, regime, &how, "slice vs Matrix", &u, n, ku, b, xs.as_ref().unwrap(), xm.as_ref().unwrap());
+                }
+            }
+        }
+        1 => {
+            let (a, how) = if rng.chance(0.3) { gen_spd_sparse(rng, n) } else { gen_spd(rng, n) };
+            rep.distinct(Hasher::new().s(RS_KINDS[kind]).u(n as u64).u(bits_digest(&a)).finish(), n >= 2 && !is_diagonal(&a, n));
+            let kappa = cond_inf(&a, n);
+            let m = mat(&a, n);
+            let (ls, lm) = (guard(|| cholesky(&a)), guard(|| m.cholesky()));
+            let (ls, lm) = match (ls, lm) {
+                (Ok(ls), Ok(lm)) if ls.len() == n * n && all_finite(&ls) && lm.data.len() == n * n && all_finite(&lm.data) && lm.is_lower_triangular() => (ls, lm),
+                // a failing factorisation of SPD input is reported by the Cholesky streams
+                _ => {
+                    rep.seen("rhs-structure:factorisation-unusable", 1);
+                    return;
+                }
+            };
+            let list = structured_rhs_list(rng, n, few);
+            structured_factor_solves(
+                rep, &CHOLESKY_SOLVE, CHOLESKY_SOLVE_AGREE, CHOLESKY_SOLVE_MULTI_AGREE, "C11.cholesky_solve.shape", &how, &a, n, kappa, &list,
+                &|b| guard(|| cholesky_solve(&ls, b)),
+                &|b| guard(|| lm.cholesky_solve(b).to_vec()),
+                &|b| guard(|| lm.cholesky_solve(b)),
+            );
+            // the routed solver on the same systems
+            for (regime, b) in &list {
+                let x = guard(|| solve(&a, b));
+                check_solve(rep, &SOLVE_SPD, regime, &how, "solve (routed)", &a, n, &x, b);
+            }
+        }
+        _ => {
+            // a nonsingular general matrix (row exchanges happen) of moderate condition
+            let mut found = None;
+            for attempt in 0..20 {
+                let class = if attempt >= 10 { "lu:diag-dominant" } else { *rng.choose(&["lu:dense", "lu:dense", "lu:integer", "lu:zero-leading", "lu:diag-dominant", "lu:perm-matrix"]) };
+                let alt = rng.bool();
+                let inp = gen_lu(rng, class, n, alt);
+                let kappa = cond_inf(&inp.a, n);
+                if kappa <= 1e10 {
+                    found = Some((inp, kappa));
+                    break;
+                }
+            }
+            let (inp, kappa) = match found {
+                Some(f) => f,
+                None => {
+                    rep.seen("rhs-structure:generator-gave-up", 1);
+                    return;
+                }
+            };
+            let (a, how) = (&inp.a, format!("{} ({})", inp.how, inp.regime));
+            rep.distinct(Hasher::new().s(RS_KINDS[kind]).u(n as u64).u(bits_digest(a)).finish(), n >= 2 && !is_diagonal(a, n));
+            let m = mat(a, n);
+            let (rs, rm) = (guard(|| lu(a)), guard(|| m.lu()));
+            let ((lus, pivs), (lum, pivm)) = match (rs, rm) {
+                (Ok(s), Ok(m)) if s.0.len() == n * n && all_finite(&s.0) && as_perm(&s.1, n).is_some() && m.0.data.len() == n * n && all_finite(&m.0.data) && as_perm(&m.1, n).is_some() => (s, m),
+                _ => {
+                    rep.seen("rhs-structure:factorisation-unusable", 1);
+                    return;
+                }
+            };
+            let list = structured_rhs_list(rng, n, few);
+            structured_factor_solves(
+                rep, &LU_SOLVE, LU_SOLVE_AGREE, LU_SOLVE_MULTI_AGREE, "C11.lu_solve.shape", &how, a, n, kappa, &list,
+                &|b| guard(|| lu_solve(&lus, &pivs, b)),
+                &|b| guard(|| lum.lu_solve(&pivm, b).to_vec()),
+                &|b| guard(|| lum.lu_solve(&pivm, b)),
+            );
+        }
+    }
+}
+
+// ------------------------------------------------------------------------------------------------
 
 /// k-th permutation of 0..n in lexicographic order (factorial number system)
 fn nth_perm(n: usize, mut k: usize) -> Vec<usize> {
@@ -1019,7 +1358,7 @@ fn nth_perm(n: usize, mut k: usize) -> Vec<usize> {
 }
 
 pub fn run(cfg: &Cfg, rep: &mut Report) {
-    rep.rule = "stream 0: four hand-written minimal instances ([1 2; 2 1], 3x3 all-ones, an order-16 SPD Toeplitz matrix, the permutation matrix with pivot vector [1,2,3,0]); then SPD matrices (order 1 + i mod Nmax) through both Cholesky forms, cholesky_solve and the routed solve; general matrices (class = i mod 8, order cycling 1..Nmax; integer classes alternate between 1..10 and 1..Nmax) through both LU forms, det, lu_det, lu_solve; every permutation matrix of order <= 6; triangular systems through both substitution forms; non-positive-definite symmetric matrices (orders 2..Nmax) through both Cholesky forms. non-trivial = order >= 2 and not diagonal; distinct by hash of (class, n, bits of the matrix)".into();
+    rep.rule = "stream 0: four hand-written minimal instances ([1 2; 2 1], 3x3 all-ones, an order-16 SPD Toeplitz matrix, the permutation matrix with pivot vector [1,2,3,0]); then SPD matrices (order 1 + i mod Nmax) through both Cholesky forms, cholesky_solve and the routed solve; general matrices (class = i mod 8, order cycling 1..Nmax; integer classes alternate between 1..10 and 1..Nmax) through both LU forms, det, lu_det, lu_solve; every permutation matrix of order <= 6; triangular systems through both substitution forms; non-positive-definite symmetric matrices (orders 2..Nmax) through both Cholesky forms; stream 9: triangular / SPD / general nonsingular systems (kind = i mod 3, order cycling 1..Nmax) solved against structured right-hand sides (all unit vectors, leading / trailing / middle zeros, single non-zero, sparse signed, zero, identity as multi-RHS) through every substitution and factor-solve form. non-trivial = order >= 2 and not diagonal; distinct by hash of (class, n, bits of the matrix)".into();
     rep.assume("orders 1..32; SPD input has condition number <= 1e8 (G^T G + delta I); entries are finite and far from overflow (|a| <= 1e3)");
     rep.assume(&format!("rounding bounds: |L L^T - A|_inf <= C n eps |A|_inf; |P A - L U|_inf <= C n eps |L|_inf |U|_inf; triangular / factor solves: backward error <= C n eps; C = {}, eps = 2^-52", C));
     rep.assume("determinant of integer matrices (|a| <= 5, order <= 12): |sign·prod(diag U) - det_exact| <= C n eps (sum_ij (|L||U|)_ij |cofactor_ij| + |det|) + (C n eps)^2 · Hadamard bound; exact equality for (scaled) permutation matrices");
@@ -1118,6 +1457,17 @@ pub fn run(cfg: &Cfg, rep: &mut Report) {
         let (a, how) = gen_spd_graded(rng, n);
         chol_check_in(rep, rng, GRADED_SPD, n, a, how);
     });
+
+    // 9. structured right-hand sides through every triangular solve and every solve built on one
+    rep.assume("rhs-structure regimes: right-hand sides that are unit vectors (every position), start / end with zeros, have a zero block in the middle, a single non-zero entry, sparse signed entries, or are zero, and the identity as a multi-column right-hand side, through forward/backward substitution (slice and Matrix form; triangular matrices as in the substitution stream), cholesky_solve (slice, Matrix/Vector, Matrix/Matrix; SPD input as in the Cholesky stream), the routed solve, and lu_solve (all three forms; nonsingular input of the LU classes with cond_inf <= 1e10); judged by the same backward-error bound C n eps; two answers to one system are compared only when both met it, within 4 C n eps cond_inf max(|x|,|y|)");
+    let n9 = cfg.pick(288, 5760, if miri { 3 } else { 12 });
+    par_cases(cfg, rep, 9, n9, |i, rng, rep| {
+        let n = if miri { [4usize, 5, 3][i % 3] } else { 1 + (i / 3) % nmax };
+        structured_rhs_case(rep, rng, i % 3, n, miri);
+    });
+    for r in RS_ALL.iter().chain(RS_KINDS.iter()) {
+        rep.require(r, 1);
+    }
 
     for r in [GRADED_SPD, NONPD_CONGRUENCE, NONPD_WILD, NONPD_BORDERED] {
         rep.require(r, 1);
